@@ -538,12 +538,14 @@ func (x *Exec) calleeEffects(st *State, c *ssa.CallCommon) effects {
 	if _, ok := c.Value.(*ssa.Builtin); ok {
 		b := c.Value.(*ssa.Builtin)
 		switch b.Name() {
-		case "append", "copy":
+		case "copy":
 			if len(c.Args) > 0 {
 				if sl, ok := c.Args[0].Type().Underlying().(*types.Slice); ok {
 					x.compsOfType(sl.Elem(), eff.comps)
 				}
 			}
+		case "append":
+			// writes nothing visible: the result is a fresh backing array (allocation as assumption)
 		case "delete":
 			if mt, ok := c.Args[0].Type().Underlying().(*types.Map); ok {
 				d, v := mapCompNames(x.w, mt)
@@ -610,6 +612,9 @@ func (x *Exec) scanEffects(fn *ssa.Function, eff *effects, seen map[*ssa.Functio
 		for _, in := range b.Instrs {
 			switch n := in.(type) {
 			case *ssa.Store:
+				if _, lazy := x.plan(fn).store[n]; lazy {
+					continue
+				}
 				root := n.Addr
 				for {
 					switch r := root.(type) {
@@ -795,18 +800,18 @@ func (x *Exec) appendBuiltin(st *State, c *ssa.CallCommon, args []Val) Val {
 		case *types.Array:
 			unsup("append of arrays")
 		default:
-			name, cur := x.w.comp(st, x.w.sortOf(t2))
-			nv := x.g.fresh(name, "(Array Addr "+x.w.sortOf(t2)+")")
-			st.heap[name] = nv
-			st.assume(fmt.Sprintf("(forall ((p!z Addr)) (! (=> (not (= (oid p!z) (oid %s))) (= (select %s p!z) (select %s p!z))) :pattern ((select %s p!z))))", a, nv, cur, nv))
+			// the fresh backing array is assumed to hold the contents already (allocation as assumption); the
+			// facts are phrased over selem(result, j) so that their patterns match element reads of the result
+			_, cur := x.w.comp(st, x.w.sortOf(t2))
+			dst := mk(app("selem", r, "k!a"))
 			st.assume(fmt.Sprintf("(forall ((k!a Int)) (! (=> (and (<= 0 k!a) (< k!a (slen %s))) (= (select %s %s) (select %s %s))) :pattern ((select %s %s))))",
-				s.S, nv, mk(app("idx", a, "k!a")), cur, mk(app("selem", s.S, "k!a")), nv, mk(app("idx", a, "k!a"))))
+				s.S, cur, dst, cur, mk(app("selem", s.S, "k!a")), cur, dst))
 			if tIsStr {
-				st.assume(fmt.Sprintf("(forall ((k!a Int)) (! (=> (and (<= 0 k!a) (< k!a %s)) (= (select %s %s) (at %s k!a))) :pattern ((at %s k!a))))",
-					tlen, nv, mk(app("idx", a, app("+", app("slen", s.S), "k!a"))), t.S, t.S))
+				st.assume(fmt.Sprintf("(forall ((k!a Int)) (! (=> (and (<= (slen %s) k!a) (< k!a (slen %s))) (= (select %s %s) (at %s (- k!a (slen %s))))) :pattern ((select %s %s))))",
+					s.S, r, cur, dst, t.S, s.S, cur, dst))
 			} else {
-				st.assume(fmt.Sprintf("(forall ((k!a Int)) (! (=> (and (<= 0 k!a) (< k!a %s)) (= (select %s %s) (select %s %s))) :pattern ((select %s %s))))",
-					tlen, nv, mk(app("idx", a, app("+", app("slen", s.S), "k!a"))), cur, mk(app("selem", t.S, "k!a")), cur, mk(app("selem", t.S, "k!a"))))
+				st.assume(fmt.Sprintf("(forall ((k!a Int)) (! (=> (and (<= (slen %s) k!a) (< k!a (slen %s))) (= (select %s %s) (select %s %s))) :pattern ((select %s %s))))",
+					s.S, r, cur, dst, cur, mk(app("selem", t.S, app("-", "k!a", app("slen", s.S)))), cur, dst))
 			}
 		}
 	}
